@@ -311,7 +311,7 @@ class Runner:
         backend0 = w.gdb.pool._backend
         w.mdb.txmodel = tm
         w.gdb.pool._backend = txmc.TxBackend(w.mdb, tm)
-        loop = vloop.VLoop(chooser, reorder_ready=True, t0=w.now_ms / 1000.0)
+        loop = txmc.make_loop(chooser, tm, w.now_ms / 1000.0)
         counters: Dict[Any, int] = {}
 
         def task_factory(lp, coro, context=None):
@@ -325,7 +325,7 @@ class Runner:
 
         async def main():
             if order is None:
-                ts = [loop.create_task(_run_op(i, f)) for i, f in enumerate(factories)]
+                ts = [loop.create_task(_run_op(i, f), name=f'op{i}') for i, f in enumerate(factories)]
                 return [await t for t in ts]
             res = [None] * len(factories)
             for i in order:
@@ -337,7 +337,6 @@ class Runner:
         try:
             with _seams(w), vloop.owned_time(lambda: loop):
                 res, exc = loop.run(main(), max_steps=200000)
-                loop.reorder_ready = False
                 loop.drain()
         finally:
             try:
